@@ -6,6 +6,14 @@ assignment), followed by applying the stored matrices to the basis {1, x, y[, z]
 linear fields and comparing with the closed-form Darcy flux ``-n_f . K grad p`` on every
 face and with ``p(x_f)`` on every boundary face. Matrices are applied, never inverted,
 so all-Neumann assignments are ordinary members of the space.
+
+Further letters: periodic grids (``set_periodic_map`` on tensor grids with uneven spacing;
+fields restricted to those that are periodic themselves: the constant and the coordinates
+of the non-periodic axes), a scale axis (all node coordinates x 1e-3 / 1e3, tolerances
+relative to the scale) and the non-default scalar eta 0.25. Every evaluation carries a
+purity oracle (bitwise digest of grid, tensor, boundary condition around ``discretize``)
+and every 4th assignment a reuse oracle (a second ``discretize`` on the same data dictionary
+reproduces the matrices exactly).
 """
 
 from __future__ import annotations
@@ -39,7 +47,9 @@ BOUNDS = {
         "interior node on all 9 offsets {0,+-0.1}^2, K in {full, rot}; C(3,2) with 2 two-node patterns, K=full "
         "(1024 assignments each). Block B (K in {I,diag,full,rot} x [eta in {default,0,1/3} with the python "
         "inverter, default eta with the numba inverter]): 7 grid letters (Cartesian/triangle, unperturbed, perturbed, affine) x (16 side-wise "
-        "assignments U all single-face flips of all-Dir and all-Neu)."
+        "assignments U all single-face flips of all-Dir and all-Neu). Block P (periodic map): Tensor 2x2 /per-x, /per-y, "
+        "Tensor 3x2 /per-xy, C(3,3) /per-y, Tensor 3x2 /per-y *1e3 x 4 K x eta {default,1/3} x all assignments. Block S: "
+        "scale 1e-3 / 1e3 on perturbed letters and eta = 0.25. Purity digest on every evaluation, reuse on every 4th."
     ),
     "thorough": (
         "quick + Block B with the full eta x inverter product; Block A with all 4 K and eta in {default,0,1/3}; C(3,2): all 81 two-node patterns x (side-wise U "
@@ -54,18 +64,12 @@ CHUNK = 4
 
 TOL = 1e-10
 
-# number of boundary faces per grid letter (asserted against the real grid in run_case)
-NB = {"C2,2": 8, "T2,2": 8, "C3,2": 10, "Tet1,1,1": 12, "Tet2,1,1": 20, "C2,2,2": 24, "Tet2,2,2": 48}
 ETAS = [None, 0.0, 1.0 / 3.0]
 
 
-def _gkey(spec):
-    return spec["kind"] + ",".join(str(v) for v in spec["n"])
-
-
 def _aset_size(spec, aset):
-    nb = NB[_gkey(spec)]
-    dim = len(spec["n"])
+    nb = G.num_boundary_faces(spec)
+    dim = len(spec["coords"]) if spec["kind"] == "Tensor" else len(spec["n"])
     if aset == "all":
         return 1 << nb
     n = 1 << (2 * dim)
@@ -120,6 +124,24 @@ def cases(tier):
                         continue  # quick: numba (the default inverter) with the default eta only
                     _emit(out, spec, K, eta, inv, "flip1", 40)
 
+    # ---- Block P: periodic grids (uneven spacing), all assignments of the remaining boundary
+    T22 = {"kind": "Tensor", "coords": [[0, 1, 3], [0, 2, 3]]}
+    T32 = {"kind": "Tensor", "coords": [[0, 0.5, 2, 3], [0, 1, 1.5]]}
+    for spec in (dict(T22, periodic=[0]), dict(T22, periodic=[1]), dict(T32, periodic=[0, 1]),
+                 {"kind": "C", "n": [3, 3], "periodic": [1]}, dict(T32, periodic=[1], scale=1e3)):
+        for K in G.K_LETTERS:
+            for eta in (None, 1.0 / 3.0):
+                _emit(out, spec, K, eta, "python", "all", 64)
+        _emit(out, spec, "full", None, "numba", "all", 64)
+
+    # ---- Block S: scale axis and a non-default scalar eta
+    for spec in (c22(pert=[[4, [1, -1]]], scale=1e-3), t22(pert=[[4, [-1, 1]]], scale=1e3),
+                 c32(pert=[[5, [1, 0]], [6, [-1, 1]]], scale=1e-3), c22(scale=1e3), T22):
+        for K in ("full", "rot"):
+            for eta in (None, 0.25):
+                _emit(out, spec, K, eta, "python", "flip1", 40)
+        _emit(out, spec, "rot", 0.25, "numba", "flip1", 40)
+
     if tier == "thorough":
         # C(3,2): every pattern on the two interior nodes
         for o5 in offs2:
@@ -168,7 +190,7 @@ def run_case(case) -> Outcome:
     g, info = G.build_grid(spec)
     dim = g.dim
     nb = len(info["bfaces"])
-    assert nb == NB[_gkey(spec)], (nb, spec)
+    assert nb == G.num_boundary_faces(spec), (nb, spec)
     K = G.k_matrix(kl, dim)
     perm = G.tensor_from_matrix(K, g.num_cells)
     masks = _masks(info, dim, case["aset"])
@@ -180,17 +202,24 @@ def run_case(case) -> Outcome:
     tol_p = TOL * (1.0 + xmax)
     gname = G.grid_name(spec)
     gcls = f"{dim}d-{spec['kind']}" + ("~" if spec.get("pert") else "") + ("@" if spec.get("affine", "id") != "id" else "")
-    symmetric_letter = kl == "I" and spec["kind"] == "C" and not spec.get("pert") and spec.get("affine", "id") == "id"
+    symmetric_letter = (kl == "I" and spec["kind"] == "C" and not spec.get("pert") and spec.get("affine", "id") == "id"
+                        and not spec.get("periodic"))
     bf = info["bfaces"]
     fields = G.basis_fields(dim)
+    if info.get("periodic_pairs") is not None:
+        per_axes = {int(np.argmax(np.abs(g.face_centers[:, r] - g.face_centers[:, l]))) for l, r in info["periodic_pairs"].T}  # noqa: E741
+        fields = [f for f in fields if not any(f[2][a] != 0 for a in per_axes)]
+    gcls += ("/per" if spec.get("periodic") else "") + ("*" if spec.get("scale", 1.0) != 1.0 else "")
 
     for m in masks:
         is_dir = G.mask_to_dir(m, nb)
         nd = int(is_dir.sum())
-        bccls = "allDir" if nd == nb else ("allNeu" if nd == 0 else ("1Dir" if nd == 1 else ("1Neu" if nd == nb - 1 else "mixed")))
+        bccls = "noBnd" if nb == 0 else "allDir" if nd == nb else ("allNeu" if nd == 0 else ("1Dir" if nd == 1 else ("1Neu" if nd == nb - 1 else "mixed")))
         try:
             bc = G.make_bc(g, bf, is_dir)
-            md, _ = F.discretize_flow("mpfa", g, perm, bc, eta, inv)
+            dg0 = G.digest(g, perm, bc)
+            md, data = F.discretize_flow("mpfa", g, perm, bc, eta, inv)
+            dg1 = G.digest(g, perm, bc)
             flux_m, bflux_m = md["flux"], md["bound_flux"]
             bpc, bpf = md["bound_pressure_cell"], md["bound_pressure_face"]
         except Exception as e:
@@ -199,7 +228,23 @@ def run_case(case) -> Outcome:
             out.ev("exception")
             continue
         bad = None
+        if dg0 != dg1:
+            bad = ("Mpfa.discretize modified its arguments (grid / tensor / boundary condition)", {})
+        elif m % 4 == 0:
+            first = G.dense_copy(md)
+            try:
+                second = G.dense_copy(F.rediscretize("mpfa", g, data))
+                for k in first:
+                    if k not in second or not np.array_equal(first[k], second[k]):
+                        bad = ("second Mpfa.discretize on the same data dictionary gives different matrices", {"matrix": k})
+                        break
+                if bad is None and G.digest(g, perm, bc) != dg0:
+                    bad = ("second Mpfa.discretize modified its arguments", {})
+            except Exception as e:
+                bad = ("second Mpfa.discretize on the same data dictionary raised", {"error": repr(e)})
         for name, p0, grad in fields:
+            if bad is not None:
+                break
             pc, pf, bcv, q = F.linear_data(g, info, K, is_dir, p0, grad)
             flux = flux_m @ pc + bflux_m @ bcv
             err = np.abs(flux - q)
@@ -218,7 +263,7 @@ def run_case(case) -> Outcome:
                         "expected": float(pf[bf[j]]), "observed": float(pb[bf[j]]), "tol": tol_p})
                 break
         key = None
-        if 0 < nd < nb and not symmetric_letter:
+        if (0 < nd < nb or spec.get("periodic")) and not symmetric_letter:
             key = (gname, kl, eta, inv, m)
         if bad is not None:
             out.violate(bad[0], grid=gname, grid_spec=spec, K=K[:dim, :dim], K_letter=kl, eta=eta, inverter=inv,
